@@ -349,9 +349,9 @@ def flatten_conj(test, pol=True):
     return [(test, pol)]
 
 
-def atomic_guards(st, stop=None):
+def atomic_guards(st, stop=None, asserts=True):
     out = []
-    for t, pol in guards(st, stop):
+    for t, pol in guards(st, stop, asserts):
         out.extend(flatten_conj(t, pol))
     return out
 
